@@ -899,6 +899,20 @@ where
                         }
                         _ => vec![],
                     };
+                    // members inherited from the interfaces it extends
+                    properties.extend(interface.extends.iter().filter_map(|parent| {
+                        let ident = parent.expr.as_ident()?;
+                        self.resolve_indexed_access(
+                            &TsType::TsTypeRef(TsTypeRef {
+                                type_name: TsEntityName::Ident(ident.clone()),
+                                type_params: parent.type_args.clone(),
+                                span: DUMMY_SP,
+                            }),
+                            index,
+                        )
+                        .filter(|ty| !is_empty_union(ty))
+                        .map(Box::new)
+                    }));
                     if properties.len() == 1 {
                         Some((*properties.remove(0)).clone())
                     } else {
